@@ -314,3 +314,154 @@ package runtime
 //@ ensures C10 fresh: result != nil && result.len == 0 && result.getp == 0 && !result.close
 //@ ensures C10 cap: (cap > 0 ==> result.cap == cap && valid(result.data, cap*eltSize)) && (cap <= 0 ==> result.cap == 0)
 //@ modifies nothing
+
+// ---------------------------------------------------------------------------
+// map.go / alg.go — C06: representation helpers of the hash table and the
+// hash/equality coherence law per key kind (equal keys hash alike). The
+// finite-map refinement of the bucket code itself is not decided.
+
+//@ func tophash
+//@ props C06
+//@ ensures C06 ge: result >= minTopHash
+//@ ensures C06 value: (uint8(hash >> 56) >= minTopHash ==> result == uint8(hash >> 56)) && (uint8(hash >> 56) < minTopHash ==> result == uint8(hash >> 56) + minTopHash)
+//@ modifies nothing
+
+//@ func isEmpty
+//@ props C06
+//@ ensures C06 def: result <==> (x == emptyRest || x == emptyOne)
+//@ modifies nothing
+
+//@ func bucketShift
+//@ props C06
+//@ ensures C06 pow2: result == uintptr(1) << (b & 63)
+//@ ensures C06 nonzero: result != 0
+//@ modifies nothing
+
+//@ func bucketMask
+//@ props C06
+//@ inline bucketShift
+//@ ensures C06 mask: result == (uintptr(1) << (b & 63)) - 1
+//@ ensures C06 mask-and-pow2: b < 64 ==> (result & (result + 1)) == 0
+//@ modifies nothing
+
+//@ func evacuated
+//@ props C06
+//@ requires b != nil
+//@ ensures C06 def: result <==> (mem[b] > emptyOne && mem[b] < minTopHash)
+//@ modifies nothing
+
+//@ func overLoadFactor
+//@ props C06
+//@ inline bucketShift
+//@ ensures C06 small: count <= bucketCnt ==> !result
+//@ ensures C06 threshold: B < 64 && count >= 0 ==> (result <==> (count > bucketCnt && uintptr(count) > loadFactorNum * ((uintptr(1) << B) / loadFactorDen)))
+//@ modifies nothing
+
+//@ func tooManyOverflowBuckets
+//@ props C06
+//@ ensures C06 def: result <==> (noverflow >= uint16(1) << min(B, 15))
+//@ modifies nothing
+
+//@ macro f64hashspec(bits, h): f64frombits(bits) == 0 ? c1 * (c0 ^ h) : memhash64(bits, h)
+//@ macro f32hashspec(bits, h): f32frombits(bits) == 0 ? c1 * (c0 ^ h) : memhash32(bits, h)
+
+//@ func f64hash
+//@ props C06
+//@ requires p != nil
+//@ ensures C06 spec: !isnan(f64frombits(mem64[p])) ==> result == f64hashspec(mem64[p], h)
+//@ modifies nothing
+
+//@ func f32hash
+//@ props C06
+//@ requires p != nil
+//@ ensures C06 spec: !isnan(f32frombits(mem32[p])) ==> result == f32hashspec(mem32[p], h)
+//@ modifies nothing
+
+//@ func f64equal
+//@ props C06
+//@ requires p != nil && q != nil
+//@ ensures C06 spec: result <==> f64frombits(mem64[p]) == f64frombits(mem64[q])
+//@ modifies nothing
+
+//@ func f32equal
+//@ props C06
+//@ requires p != nil && q != nil
+//@ ensures C06 spec: result <==> f32frombits(mem32[p]) == f32frombits(mem32[q])
+//@ modifies nothing
+
+//@ lemma f64_hash_coherent: C06 forall x uint64, y uint64, h uintptr :: f64frombits(x) == f64frombits(y) ==> f64hashspec(x, h) == f64hashspec(y, h)
+//@ lemma f32_hash_coherent: C06 forall x uint32, y uint32, h uintptr :: f32frombits(x) == f32frombits(y) ==> f32hashspec(x, h) == f32hashspec(y, h)
+
+//@ func isDirectIface
+//@ props C06 C07
+//@ requires t != nil
+//@ ensures C06 def: result <==> (t.Kind_ & 32) != 0
+//@ modifies nothing
+
+//@ func c128hash
+//@ props C06
+//@ requires p != nil && p < 1<<48
+//@ ensures C06 spec: !isnan(f64frombits(mem64[p])) && !isnan(f64frombits(mem64[p + 8])) ==> result == f64hashspec(mem64[p + 8], f64hashspec(mem64[p], h))
+//@ modifies nothing
+
+//@ func c64hash
+//@ props C06
+//@ requires p != nil && p < 1<<48
+//@ ensures C06 spec: !isnan(f32frombits(mem32[p])) && !isnan(f32frombits(mem32[p + 4])) ==> result == f32hashspec(mem32[p + 4], f32hashspec(mem32[p], h))
+//@ modifies nothing
+
+//@ func c128equal
+//@ props C06
+//@ requires p != nil && q != nil
+//@ ensures C06 spec: result <==> (f64frombits(mem64[p]) == f64frombits(mem64[q]) && f64frombits(mem64[p + 8]) == f64frombits(mem64[q + 8]))
+//@ modifies nothing
+
+//@ func c64equal
+//@ props C06
+//@ requires p != nil && q != nil
+//@ ensures C06 spec: result <==> (f32frombits(mem32[p]) == f32frombits(mem32[q]) && f32frombits(mem32[p + 4]) == f32frombits(mem32[q + 4]))
+//@ modifies nothing
+
+// c64/c128 coherence follows from f32/f64_hash_coherent applied to the real part
+// (equal seeds) and then to the imaginary part (equal inner hashes as seeds).
+
+//@ func strhash
+//@ props C06
+//@ requires a != nil
+//@ ensures C06 spec: result == memhashbytes(as(String, a).data, uintptr(as(String, a).len), h)
+//@ modifies nothing
+
+//@ func efaceeq
+//@ props C06 C07
+//@ ensures C06 nil: t == nil ==> result
+//@ ensures C06 direct: t != nil && (t.Kind_ & 32) != 0 ==> (result <==> x == y)
+//@ panics_iff C06 uncomparable: t != nil && t.Equal == nil
+//@ modifies nothing
+
+//@ func ifaceeq
+//@ props C06 C07
+//@ requires tab != nil ==> tab._type != nil
+//@ ensures C06 nil: tab == nil ==> result
+//@ ensures C06 direct: tab != nil && (tab._type.Kind_ & 32) != 0 ==> (result <==> x == y)
+//@ panics_iff C06 uncomparable: tab != nil && tab._type.Equal == nil
+//@ modifies nothing
+
+//@ func interhash
+//@ props C06
+//@ opt panic_writes allowed
+//@ requires p != nil && (as(iface, p).tab != nil ==> as(iface, p).tab._type != nil)
+//@ panics_iff C06 unhashable: as(iface, p).tab != nil && as(iface, p).tab._type.Equal == nil
+//@ ensures C06 nil: old(as(iface, p).tab) == nil ==> result == h
+//@ modifies everything
+
+//@ func nilinterhash
+//@ props C06
+//@ opt panic_writes allowed
+//@ requires p != nil
+//@ panics_iff C06 unhashable: as(eface, p)._type != nil && as(eface, p)._type.Equal == nil
+//@ ensures C06 nil: old(as(eface, p)._type) == nil ==> result == h
+//@ modifies everything
+
+//@ func (errorString).Error
+//@ props C06 C03
+//@ modifies nothing
